@@ -109,11 +109,9 @@ def check(rec, st):
         st.seen("py_bruteforce_compares")
         sel = b["coins"]
         waste = sum(wpart[i] for i in sel) + sum(amount[i] for i in sel) - target
-        if best_waste is not None and best_waste < waste:
-            reducer = any(gam[g] + gwp[g] < 0 for g in pos)
-            twins = maxw < sum(gw[g] for g in pos) and any(gam[g] == gam[h] and gw[g] != gw[h] for g in pos for h in pos)
-            st.violation("bnb-not-optimal-pool-has-waste-reducing-coin" if reducer else
-                         "bnb-not-optimal-weight-limit-and-equal-amount-groups-of-different-weight" if twins else "bnb-not-optimal", "complete BnB search but a strictly less wasteful subset exists (python)",
+        if best_waste is not None and best_waste < waste and not rec.get("bnb_nonopt"):
+            # the harness reports (and classifies) BnB non-optimality itself; this fires only if it missed one
+            st.violation("bnb-not-optimal", "complete BnB search but a strictly less wasteful subset exists (python only)",
                          {"waste": waste, "best": best_waste, "coins": coins, "sel": sel, "target": target, "coc": coc, "maxw": maxw, "eff": eff, "lt": lt}, case)
     g = rec["cg"]
     if g is not None and g["done"]:
